@@ -384,7 +384,7 @@ func (w *gwf) render(r *hx.Rng) (string, []*ref) {
 	o.add("jobs:")
 	wfNames := func() []string {
 		c := append([]string{}, namePool...)
-		return append(c, "github_token", "undefined_name")
+		return append(c, "github_token", "actions_step_debug", "ACTIONS_RUNNER_DEBUG", "undefined_name")
 	}
 	for ji, j := range w.jobs {
 		o.add("  " + j.id + ":")
@@ -525,7 +525,7 @@ func dumpAST(w *actionlint.Workflow, g *gwf) (*astInfo, error) {
 			needs = append(needs, n.Value)
 		}
 		outs := hx.SortedKeys(j.Outputs)
-		js = append(js, fmt.Sprintf("Build_jobS %s %s %s None", hx.CoqStr(j.ID.Value), coqStrs(needs), coqStrs(outs)))
+		js = append(js, fmt.Sprintf("Build_jobS %s %s %s %s None", hx.CoqStr(lower(gj.id)), hx.CoqStr(j.ID.Value), coqStrs(needs), coqStrs(outs)))
 		var ss []string
 		for _, s := range j.Steps {
 			id := "None"
